@@ -25,7 +25,7 @@ FIBRE_SPACE = {
     'con_in': [0.0, 0.5],
     'att_in': [0.0, 2.0],
     'kind': ['Fiber', 'RamanFiber'],      # a RamanFiber without pumps, Raman computation off: the same closed form
-    'loss_table': [False, True],
+    'loss_table': [False, True, 'desc'],      # per-frequency loss table, listed by increasing / decreasing frequency
     'sim': ['plain', 'computed_channels', 'computed_number', 'raman_off_explicit'],
 }
 
@@ -38,6 +38,8 @@ def fibre_json(fc):
     if fc['loss_table']:
         p['loss_coef'] = {'value': [fc['loss'] + 0.02, fc['loss'], fc['loss'] + 0.01],
                           'frequency': [186e12, 193.4e12, 198e12]}
+        if fc['loss_table'] == 'desc':
+            p['loss_coef'] = {k: x[::-1] for k, x in p['loss_coef'].items()}
     if fc.get('kind') == 'RamanFiber':
         return {'type': 'RamanFiber', 'type_variety': 'F', 'params': p,
                 'operational': {'temperature': 283, 'raman_pumps': []}}
@@ -184,6 +186,16 @@ def run_case(case):
         if not math.isclose(got_b2, exp_b2, rel_tol=1e-9):
             v('beta2-not-documented-conversion', f'fibre dispersion {fc["dispersion"]} slope {fc["slope"]}: beta2({f / 1e12} THz) = '
               f'{got_b2!r}, expected {exp_b2!r}')
+            break
+    # alpha(f) is the configured loss coefficient (scalar, or the table interpolated linearly in frequency)
+    for f in (191.4e12, 193.414489e12, 196.0e12):
+        db_km = fc['loss'] if not fc['loss_table'] else float(np.interp(
+            f, [186e12, 193.4e12, 198e12], [fc['loss'] + 0.02, fc['loss'], fc['loss'] + 0.01]))
+        exp_a = db_km * 1e-3 / (10 * math.log10(math.e))
+        got_a = float(np.atleast_1d(fib.alpha(np.array([f])))[0])
+        if not math.isclose(got_a, exp_a, rel_tol=1e-9):
+            v('alpha-not-configured-value', f'fibre loss {fc["loss"]} table {fc["loss_table"]}: alpha({f / 1e12} THz) = {got_a!r} 1/m, '
+              f'expected {exp_a!r} ({db_km} dB/km)')
             break
     nontriv = 0
     for cb_spec in case['combs']:
